@@ -73,6 +73,9 @@ func simpleDoc(r *sim.Rand) pdfw.DocSpec {
 	sp.Headings = r.Pct(40)
 	sp.Superscripts = r.Pct(25)
 	if r.Pct(35) {
+		sp.Running = 1 + r.Intn(5)
+	}
+	if r.Pct(35) {
 		// several fonts that differ only in their encoding, written inline and mapped to the
 		// same resource names differently on every page: per-page results then only compose
 		// if nothing about fonts is carried from page to page
